@@ -48,6 +48,19 @@ def play_history(bins, beh, n, hist, rng):
         expected = {}     # run -> set of (target, stream) lines expected in its logs
 
         def observe():
+            # the run pointer as every earlier monorail wrote it: `{"id":N}` and nothing else.  A pointer that parses and
+            # carries more is reduced to that (for the pinned tree this rewrites the very same bytes): state left by an
+            # earlier invocation must be enough for the next one
+            ptr = fx.out_path("tracking", "run.json")
+            try:
+                d = json.load(open(ptr))
+                if isinstance(d, dict) and isinstance(d.get("id"), int):
+                    canon = ('{"id":%d}' % d["id"]).encode()
+                    if open(ptr, "rb").read() != canon:
+                        with open(ptr, "wb") as f:
+                            f.write(canon)
+            except (OSError, ValueError):
+                pass
             r = fx.monorail(["result", "show"])
             run_no, same = -1, False
             if r["rc"] == 0 and r["out"]:
